@@ -23,6 +23,9 @@ type c15Plan struct {
 	Big      []byte         `json:"big,omitempty"`  // oversize info / application data / Latin-1 name bytes
 	Name     string         `json:"name,omitempty"` // non-Latin-1 name
 	Fill     string         `json:"fill"`           // hex of the random pre-fill pattern (repeated)
+	// mode storm: Frame and Storm are each encoded (and decoded, re-encoded) Reps times by their own goroutine at once
+	Storm []*common.RFrame `json:"storm,omitempty"`
+	Reps  int              `json:"reps,omitempty"`
 }
 
 type namedPackable struct {
@@ -109,6 +112,9 @@ func subPackables(f *common.RFrame, srv knxnet.Service) []namedPackable {
 func c15Run(p c15Plan) *common.Fail {
 	fill, _ := hex.DecodeString(p.Fill)
 	switch p.Mode {
+	case "storm":
+		// "determines every byte" also when other goroutines encode their own values into their own buffers
+		return c02Storm(framePlan{Kind: p.Kind, CemiKind: p.CemiKind, Frame: p.Frame, Storm: p.Storm, Reps: p.Reps})
 	case "frame":
 		srv := common.ToLib(p.Frame)
 		if srv == nil {
@@ -241,6 +247,23 @@ func TestC15(t *testing.T) {
 			p.Mode = "nonlatin-name"
 			p.Name = rapid.StringOfN(rapid.RuneFrom([]rune("aZ9 \u00e9\u20ac\u4e2d\U0001F600\u0100\uffff")), 0, 79, -1).Draw(rt, "name") +
 				string(rapid.SampledFrom([]rune("\u20ac\u4e2d\U0001F600\u0100")).Draw(rt, "nonlatin"))
+		case 4:
+			if rapid.IntRange(0, 19).Draw(rt, "storm") == 0 {
+				// frames with text fields and description blocks (shared converters), a few others
+				p.Mode, p.Kind = "storm", rapid.SampledFrom([]string{"searchres", "descrres"}).Draw(rt, "storm-kind")
+				p.Frame = common.GenFrame(rt, p.Kind, "")
+				for i := 0; i < rapid.IntRange(1, 7).Draw(rt, "storm-frames"); i++ {
+					k := rapid.SampledFrom([]string{"searchres", "descrres", "descrres", "tunnelreq", "routingind"}).Draw(rt, "storm-frame-kind")
+					ck := ""
+					if common.CarriesCemi(k) {
+						ck = rapid.SampledFrom(common.CemiKinds).Draw(rt, "storm-cemikind")
+					}
+					p.Storm = append(p.Storm, common.GenFrame(rt, k, ck))
+				}
+				p.Reps = rapid.SampledFrom([]int{50, 300}).Draw(rt, "storm-reps")
+				break
+			}
+			fallthrough
 		default:
 			fp := genFramePlan(rt, cells)
 			p.Mode, p.Kind, p.CemiKind, p.Frame = "frame", fp.Kind, fp.CemiKind, fp.Frame
